@@ -34,7 +34,10 @@ impl Record {
         };
 
         let quality_scores = if record.quality_scores().is_empty() {
-            QualityScores::default()
+            // § 10.6 "Mapped reads" / § 10.7 "Unmapped reads": quality scores that are stored as
+            // an array take one byte per base; missing scores are 0xff (the reader maps an
+            // all-0xff array back to "missing").
+            QualityScores::from(vec![0xff; record.sequence().len()])
         } else {
             if bam_flags.is_unmapped() {
                 cram_flags.insert(Flags::QUALITY_SCORES_ARE_STORED_AS_ARRAY);
